@@ -22,6 +22,8 @@ def impl(fname, args):
     if fname == 'groups':
         _AB.before(deb822.get_paragraphs_as_field_groups, args[0])
         return call(lambda t: groups_t(deb822.get_paragraphs_as_field_groups(t)), *args)
+    if fname == 'groups_offset':
+        return call(groups_offset, *args)
     if fname == 'is_decl':
         return call(lambda s: bool(deb822.is_field_declaration(s)), *args)
     if fname == 'is_cont':
